@@ -314,6 +314,13 @@ def free_run(prop_id, acc, binary, gen, cfg, g, seed, sc):
         tr["id"] = "free-%s" % tr["id"]
         if tr.get("error"):
             continue
+        # a busy loop (same two actions with the same observables again and again, see KF-UX-3)
+        # is kept for two rounds only
+        st = tr["steps"]
+        for i in range(3, len(st)):
+            if st[i] == st[i - 2] and st[i - 1] == st[i - 3]:
+                del st[i:]
+                break
         seqs.add(hash(json.dumps([s["act"] for s in tr["steps"]])))
         node = inits.get(json.dumps(tr["init_obs"], sort_keys=True))
         what = None
@@ -357,6 +364,8 @@ def free_run(prop_id, acc, binary, gen, cfg, g, seed, sc):
     for t in traces:
         if t.get("error"):
             acc.light.append({"id": t["id"], "steps": [], "error": "free run: " + t["error"]})
+        elif len(acc.light) < 3:
+            acc.light.append(t)
         else:
             acc.light.append({"id": t["id"], "steps": [None] * len(t["steps"])})
     return dict(executions=len(traces), distinct_action_sequences=len(seqs), steps_matched_in_model_graph=n_steps,
